@@ -7,6 +7,7 @@ package dicescript
 import (
 	"bytes"
 	"encoding/json"
+	"errors"
 	"sync"
 	"sync/atomic"
 	"unsafe"
@@ -473,6 +474,11 @@ func (m *ValueMap) UnmarshalJSON(input []byte) error {
 		return err
 	}
 
+	for k, v := range dict {
+		if v == nil {
+			return errors.New("变量 " + k + " 的值不能为 null")
+		}
+	}
 	m.Clear()
 	for k, v := range dict {
 		m.Store(k, v)
